@@ -450,8 +450,14 @@ def object_replay(env, ex, con, ob, model, args, st_heap0):
     for lab, fn_ens, props in con.ensures:
         if lab == ob.clause:
             verdict = decide_ground(fn_ens(ctx), facts)
-    desc = {n: (jsonable(v) if _plain(v) else {"$instance": type(v).__name__, "fields": jsonable({k: (x if _plain(x) else repr(x)) for k, x in vars(v).items()})})
-            for n, v in pyargs.items()}
+    def _d(v):
+        if _plain(v):
+            return jsonable(v)
+        if hasattr(v, "__dict__"):
+            return {"$instance": type(v).__name__,
+                    "fields": jsonable({k: (x if _plain(x) else repr(x)) for k, x in vars(v).items()})}
+        return jsonable(v) if isinstance(v, (dict, list, tuple, V.Opaque)) else repr(v)
+    desc = {n: _d(v) for n, v in pyargs.items()}
     return {"inputs": desc, "replayed": True, "observed": {"kind": kind, "value": repr(value)[:300]},
             "confirmed": verdict is False,
             "clause_on_observed": {True: "holds", False: "violated", None: "undecided (ghost state is not observable)"}[verdict]}
